@@ -217,6 +217,15 @@ def run(ctx) -> None:
                             ctx.fail("R16b", fn, c, inst, "reported tick_time is not the tag's stored tick_time")
     if not found:
         raise AnchorError("engine_message_builder: no TagValue(tick_time=...) construction found")
+    # ... and nothing in the report builder rewrites a time before it is copied
+    for fn in list(mb.functions.values()) + [m for c in mb.classes.values() for m in c.methods.values()]:
+        for t, v, st in assigned_attrs(fn.node):
+            if t.attr == "tick_time":
+                ctx.analysed(fn)
+                inst = f"{fn.short}: the report builder copies times, it does not write them (`{norm(st)[:60]}`)"
+                ctx.fail("R16b", fn, st, inst, f"`{norm(st)}` replaces the stored time while the report is built: the reported time is the wall clock "
+                         "at *report* time - later than the current tick, and different in every report although the value was never set "
+                         "again (the write goes to the read-only copy, so it is repeated for every report)")
 
     # ---- R16c
     eng = prog.func("openpectus.engine.engine:Engine.tick")
